@@ -3,9 +3,13 @@
 import glob, json, os, re
 V = os.path.dirname(os.path.dirname(os.path.abspath(__file__)))
 rows = []
+nfirst = 0
 for m in sorted(glob.glob(V + '/seeded/C*/meta.json')):
     d = json.load(open(m))
     name = os.path.basename(os.path.dirname(m))
+    tp = d.get('checks_run', {}).get(name.split('_')[0])
+    if tp and tp.get('quick_check_exit') == 1 and not tp.get('first_attempt_missed'):
+        nfirst += 1
     caught = []
     for prop, r in sorted(d.get('checks_run', {}).items()):
         if r.get('quick_check_exit') == 1:
@@ -24,12 +28,15 @@ Each change was produced by an independent sub-agent that saw only the property 
 fails with the change and passes without it; I re-ran tests and demonstration myself (`confirmed` in meta.json)
 and then ran the quick check of the targeted property on a scratch worktree with the patch applied
 (`bin/seedtest.sh`). "first missed" notes say what was strengthened when a check did not catch a change at
-first; no check was loosened. %d changes, %d caught by the quick tier of the final machinery.
+first; no check was loosened. %d changes, %d caught by the quick tier of the final machinery; %d of them were
+caught by the check of their target property the first time it was run against them, the others after the
+driver or the check was strengthened as the note says (six rounds of changes; the rate of first-run catches per
+round is what to expect for a change nobody has looked at yet).
 
 | seeded change | needs, to manifest | caught by (quick tier) | note |
 |---|---|---|---|
 %s
-''' % (len(rows), sum('NOT CAUGHT' not in r for r in rows), '\n'.join(rows))
+''' % (len(rows), sum('NOT CAUGHT' not in r for r in rows), nfirst, '\n'.join(rows))
 brows = []
 for m in sorted(glob.glob(V + '/seeded/benign/*/meta.json')):
     d = json.load(open(m))
@@ -48,13 +55,15 @@ The opposite experiment: changes after which every property still holds (another
 another split point, another cache policy, another loop shape, other temporaries, other OpenMP schedules, other
 message texts), produced by independent sub-agents that saw the property texts and a scratch worktree only.
 A check that exits 1 on one of them raises a false alarm. Two did at first - both defects of the machinery, both
-corrected (section 11, entries 7 and 8); the final machinery is quiet on all %d, and reports model drift (exit 0)
-where the change makes the code differ from an implementation-shaped model or from the allocator's policy model.
+corrected (section 11, entries 7 and 8). Of the %d changes the final machinery is quiet on %d and reports model
+drift (exit 0) where the change makes the code differ from an implementation-shaped model or from the allocator's
+policy model; the remaining alarm (`B_apply_p_left_gather_rows`, C11) is justified: the change reads and writes its
+index vector out of bounds, which its author's differential testing had not noticed (see its note).
 
 | change | what it does | checks run (final machinery) | note |
 |---|---|---|---|
 %s
-''' % (len(brows), '\n'.join(brows))
+''' % (len(brows), sum(': ALARM' not in r.split('|')[3] for r in brows), '\n'.join(brows))
 p = V + '/DESIGN.md'
 s = open(p).read()
 i = s.find('## 14. Seeded changes and the checks that catch them')
